@@ -319,12 +319,14 @@ def run_monitor(drv, paths):
         if not l.startswith("T "):
             continue
         head, _, tail = l[2:].partition(";")
+        tail, _, extra = tail.partition(";")
+        nops = int(extra.split("=")[1]) if "ops=" in extra else 0
         segs = {}
         for it in tail.split():
             f = it.split(":")
             segs[int(f[0])] = {"cl": int(f[1]), "hp": int(f[2]), "settled": f[3] == "1",
                                "ca": int(f[4]), "cf": int(f[5]), "ha": int(f[6]), "hf": int(f[7])}
-        res.append({"status": head.strip(), "segs": segs})
+        res.append({"status": head.strip(), "segs": segs, "ops": nops})
     return res
 
 
@@ -422,6 +424,9 @@ def run(ck):
         return ck.finish("ocaml build failed", ["ocamlfind"], None)
     probe = subprocess.run([exe, "--probe"], capture_output=True, text=True).stdout
     ck.coverage["harness_reports_h2"] = '"h2":true' in probe.replace(" ", "")
+    if '"key_layout":"idx-high"' not in probe.replace(" ", ""):
+        ck.violation("the VM's register encoding of slot-map keys is no longer (index << 32 | version): "
+                     "Heap/Model.v key_of_raw must follow (" + probe.strip()[:100] + ")", {"kind": "layout"}, no_input=True)
 
     evdir = os.path.join(CACHE, "c12ev", f"{os.getpid()}")
     os.makedirs(evdir, exist_ok=True)
@@ -658,7 +663,7 @@ def check_programs(ck, exe, drv, evdir, progs, N, EVN, CLS_N, have_h2, known):
         if m is not None:
             ck.add("event_logs_replayed")
             ck.add("events_replayed", r.get("nev", 0))
-            if r.get("nev", 0) > 0:
+            if any(sg["ca"] + sg["ha"] > 0 for sg in m["segs"].values()):
                 ck.add("programs_with_heap_activity")
             if m["status"].startswith("reject"):
                 f = m["status"].split(":")
@@ -671,6 +676,15 @@ def check_programs(ck, exe, drv, evdir, progs, N, EVN, CLS_N, have_h2, known):
                         + ("use after release / double release" if rc == "INVALID" or opn in ("retain", "release", "use", "close")
                            else "free of a referenced object or model/VM disagreement"))
                 ck.violation(what, rep)
+                continue
+            ck.add("closure_ops_conformance_checked", m.get("ops", 0))
+            if m["status"].startswith("conform"):
+                f = m["status"].split(":")
+                opname = {0: "drop_closure", 1: "release_heap_closure", 2: "close_upvalues_by_idx", 3: "CloneHeap",
+                          4: "CloseHeapClosure", 5: "allocate_heap_closure"}.get(int(f[2]) & 15, "?")
+                ck.violation(f"{opname} of the real VM does not behave like its transcription in Heap/Model.v "
+                             f"(event #{f[1]}; {':'.join(f[6:])}): the operation retains / releases / frees differently "
+                             f"from vm.rs as modelled", rep)
                 continue
             if m["status"].startswith("unsettled"):
                 ck.violation("an object is left with reference count 0 without being freed (" + m["status"] + ")", rep)
